@@ -17,10 +17,9 @@ def sh(cmd, **kw):
 
 
 def main():
+    """every change is applied to a scratch worktree of /repo's HEAD (put in front of the editable install with
+    PYTHONPATH); /repo, the evidence files and /verif/replays are not touched"""
     names = sys.argv[1:] or sorted(os.listdir(os.path.join(VERIF, "seeded")))
-    if sh("git -C /repo diff --quiet").returncode != 0:
-        print("REPO DIRTY, refusing")
-        return 3
     summary = []
     for name in names:
         d = os.path.join(VERIF, "seeded", name)
@@ -29,24 +28,30 @@ def main():
         # patch.diff is against the pinned commit; when a later "fix:" commit touched the same lines a copy rebased
         # on the current /repo HEAD (same change) is kept next to it
         patch = f"{d}/patch.rebased.diff" if os.path.exists(f"{d}/patch.rebased.diff") else f"{d}/patch.diff"
-        if sh(f"git -C /repo apply {patch}").returncode != 0:
-            print(name, "PATCH DOES NOT APPLY")
-            summary.append((name, "patch-does-not-apply"))
-            continue
-        det = {"name": name, "repo_head": sh("git -C /repo log --format=%h -1").stdout.strip(), "results": []}
+        wt = f"/tmp/mut-{os.getpid()}-{name}"
+        if sh(f"git -C /repo worktree add -q --detach {wt} HEAD").returncode != 0:
+            print(name, "CANNOT CREATE SCRATCH COPY")
+            return 3
         try:
+            if sh(f"git -C {wt} apply {patch}").returncode != 0:
+                print(name, "PATCH DOES NOT APPLY")
+                summary.append((name, "patch-does-not-apply"))
+                continue
+            env = dict(os.environ, PYTHONPATH=wt, VERIF_NO_EVIDENCE="1", VERIF_REPLAY_DIR=wt + ".replays")
+            where = sh("/venv/bin/python -c 'import cohdl; print(cohdl.__file__)'", env=env).stdout.strip()
+            assert where.startswith(wt), where
+            det = {"name": name, "repo_head": sh("git -C /repo log --format=%h -1").stdout.strip(), "results": []}
             for c in checks:
                 t = time.time()
-                r = sh(f"./check {c} --tier quick", cwd=VERIF)
+                r = sh(f"./check {c} --tier quick", cwd=VERIF, env=env)
                 viol = [l for l in r.stdout.splitlines() if l.startswith("VIOLATION")]
-                det["results"].append({"check": c, "exit": r.returncode, "violation_lines": len(viol), "wall_s": round(time.time() - t, 1), "tail": r.stdout.strip().splitlines()[-1:] })
+                det["results"].append({"check": c, "exit": r.returncode, "violation_lines": len(viol), "wall_s": round(time.time() - t, 1), "tail": r.stdout.strip().splitlines()[-1:]})
+            det["caught"] = any(x["exit"] == 1 and x["violation_lines"] > 0 for x in det["results"])
+            json.dump(det, open(os.path.join(d, "detection.json"), "w"), indent=1)
+            print(name, "CAUGHT" if det["caught"] else "MISSED", [(x["check"], x["exit"]) for x in det["results"]], flush=True)
+            summary.append((name, det["caught"]))
         finally:
-            sh("git -C /repo checkout -- .")
-        det["caught"] = any(x["exit"] == 1 and x["violation_lines"] > 0 for x in det["results"])
-        json.dump(det, open(os.path.join(d, "detection.json"), "w"), indent=1)
-        print(name, "CAUGHT" if det["caught"] else "MISSED", [(x["check"], x["exit"]) for x in det["results"]])
-        summary.append((name, det["caught"]))
-    # restore evidence of the unchanged tree is the caller's job (re-run the checks)
+            sh(f"git -C /repo worktree remove --force {wt}; rm -rf {wt}.replays")
     return 0
 
 
